@@ -16,6 +16,25 @@ class Result:
         self.notes = []
         self.analysed = {}
         self.rules = {}
+        self.imported = {}          # rule id -> (owning property, why it is a necessary condition of this one), sa/imports.py
+
+    def import_from(self, other, rules, src, why):
+        """take over the obligations of `rules` from the result of their owner `src` (same rule ids and instance keys)"""
+        for r in rules:
+            if r not in other.rules:
+                self.broken.append('%s: imported rule %s no longer exists in the module of %s' % (self.pid, r, src))
+                continue
+            self.rules[r] = '(shared with %s) %s' % (src, other.rules[r])
+            self.imported[r] = (src, why)
+        n = 0
+        for o in other.obs:
+            if o['rule'] in rules:
+                self.obs.append(dict(o))
+                n += 1
+        self.analysed['imported from %s (%s)' % (src, ', '.join(rules))] = n
+        for m in other.broken:
+            if any(('%s %s:' % (src, r)) in m for r in rules):
+                self.broken.append(m)
 
     def rule(self, rid, text):
         self.rules[rid] = text
@@ -76,7 +95,8 @@ def basekey(key):
 
 def finish(res, tier, seed, t0, level='other', technique='', extra=None, checker_cmd=''):
     """print the report, write evidence, return the exit code"""
-    known = [k for k in load_known() if k['property'] == res.pid and k.get('status', 'known') == 'known']
+    known = [k for k in load_known() if k.get('status', 'known') == 'known' and
+             (k['property'] == res.pid or (k['rule'] in res.imported and res.imported[k['rule']][0] == k['property']))]
     viol = [o for o in res.obs if o['status'] == VIOLATED]
     new, matched = [], []
     for o in viol:
@@ -133,6 +153,8 @@ def finish(res, tier, seed, t0, level='other', technique='', extra=None, checker
         checker_cmd=checker_cmd or './check %s --tier %s' % (res.pid, tier),
         trusted_base=['clang 14 front end and clang::CFG', 'tools/htpfacts.cc serialisation', 'sa/*.py rule engines'],
         technique=technique, exhaustive=True,
+        imported={r_: dict(owner=s_, necessary_because=w_, obligations=sum(1 for o in res.obs if o['rule'] == r_ and o['status'] != INFO),
+                           holds=res.count(HOLDS, r_)) for r_, (s_, w_) in res.imported.items()},
     )
     if extra:
         cov.update(extra)
